@@ -87,6 +87,12 @@ pub fn check(tier: Tier) -> Check {
 }
 
 pub fn scenario(name: &str, params: &Value) -> Scenario {
+    scenario_for("C17", name, params)
+}
+
+/// (also run as a part of C10: with Receive Maximum 65535 every publish after the resume must be
+/// accepted, and the acknowledgements of re-sent packets must not break the quota arithmetic)
+pub fn scenario_for(prop: &'static str, name: &str, params: &Value) -> Scenario {
     let depth = params["depth"].as_u64().unwrap_or(4) as usize;
     let expiry = params["expiry"].as_u64().unwrap_or(0) as u32;
     let secs_ago = params["secs_ago"].as_u64().unwrap_or(10);
@@ -94,7 +100,7 @@ pub fn scenario(name: &str, params: &Value) -> Scenario {
     let params = params.clone();
     let name = name.to_string();
     Box::new(move |chz, ex| {
-        let mut sys = Sys::new("C17", &name, chz);
+        let mut sys = Sys::new(prop, &name, chz);
         sys.params = params.clone();
         sys.auto_exit = false;
         sys.m.check_streams = false;
@@ -103,9 +109,12 @@ pub fn scenario(name: &str, params: &Value) -> Scenario {
             session_expiry: if expiry == 0 { None } else { Some(expiry) },
             ..Default::default()
         };
-        let cprops: Vec<Prop> = connack_expiry
+        let mut cprops: Vec<Prop> = connack_expiry
             .map(|v| vec![Prop::u32(P_SESSION_EXPIRY, v)])
             .unwrap_or_default();
+        if let Some(r) = params["r"].as_u64() {
+            cprops.push(Prop::u16(P_RECEIVE_MAXIMUM, r as u16));
+        }
         // the interval in force is the broker's, if it states one
         let expiry = connack_expiry.unwrap_or(expiry);
         sys.connect_with(
